@@ -344,3 +344,57 @@ Definition f20_req : request :=
 Lemma server_ip_refuted :
   exists g req, wf_cfg g = true /\ known_F20 g req = true /\ allowed g req (r_serverip req) = true.
 Proof. exists f20_cfg, f20_req. vm_compute. repeat split. Qed.
+
+(* ---- top-level defaults apply unless a policy of the chain overrides them --- *)
+Lemma dns_v4_doc sip l : dns_v4 sip l = doc_dns sip l.
+Proof.
+  unfold dns_v4, doc_dns. induction l as [|d r IH]; [reflexivity|]. simpl. rewrite IH.
+  destruct d; try reflexivity. destruct (x =? 0); reflexivity.
+Qed.
+
+Lemma last_for_none k (l : list (N * option (list N))) :
+  (forall e, In e l -> fst e <> k) -> last_for k l = None.
+Proof.
+  intros Hn. unfold last_for. destruct (find _ (rev l)) as [e|] eqn:F; [|reflexivity].
+  apply find_some in F. destruct F as [Hin He]. apply in_rev in Hin. apply N.eqb_eq in He.
+  exfalso. exact (Hn e Hin He).
+Qed.
+
+Lemma base_sub_chain_value g req conf k l v :
+  k <> 26 -> k <> 3 ->
+  chain_value k (first_chain req (flat_map (default_subpolicy g req conf) l)) v = v.
+Proof.
+  intros H26 H3. unfold first_chain. induction l as [|[net len|] r IH]; [reflexivity| |exact IH].
+  simpl flat_map. cbn [app selected].
+  destruct (matches req _); [|exact IH].
+  rewrite selected_in_unfold. cbn [p_kids first_chain selected chain_value p_apply].
+  rewrite last_for_none; [reflexivity|].
+  unfold OPTION_MTUIF, OPTION_ROUTERADDR.
+  intros e Hin. destruct (prefix_contains net len (r_serverip req)), (r_mtu req), (r_router req);
+    simpl in Hin;
+    repeat (destruct Hin as [Hin|Hin]; [subst e; simpl; intros Hx; symmetry in Hx; contradiction|]);
+    contradiction.
+Qed.
+
+Lemma defaults_unless_overridden g req init k :
+  requested req k = true -> k = 6 \/ k = 119 \/ k = 114 ->
+  tget k (rs_opts (snd (policy_walk g req init))) =
+  chain_value k (match selected req (conf_policies g) with Some ch => ch | None => [] end)
+    (top_level_default g req k).
+Proof.
+  intros Hr Hk.
+  assert (Hn : k <> 1 /\ k <> 28 /\ k <> 26 /\ k <> 3) by (destruct Hk as [->|[->| ->]]; repeat split; discriminate).
+  destruct Hn as [H1 [H28 [H26 H3]]].
+  unfold policy_walk. rewrite (walk_is_spec req [build_default g req (conf_policies g)]).
+  cbn [selected]. rewrite base_matches, selected_in_unfold, walk_is_spec.
+  assert (B : tget k (rs_opts (apply_chain req
+               (build_default g req (conf_policies g) :: first_chain req (p_kids (build_default g req (conf_policies g))))
+               {| rs_opts := init; rs_addr := None |})) = top_level_default g req k).
+  { rewrite chain_value_get by assumption. cbn [chain_value p_kids build_default].
+    rewrite base_sub_chain_value by assumption.
+    unfold top_level_default. rewrite <- dns_v4_doc.
+    destruct Hk as [->|[->| ->]]; reflexivity. }
+  destruct (selected req (conf_policies g)) as [ch|]; cbn [snd].
+  - rewrite chain_value_get by assumption. rewrite B. reflexivity.
+  - exact B.
+Qed.
